@@ -91,7 +91,20 @@ func VerifC06_Multi(h *zz.H) {
 	h.Assert(a.n <= 1 && b.n <= 1, "C06: UpdateOnce with a tracking set invokes each client at most once")
 	h.Assert((a.n == 1) == zz.Or(c06Rel(qa1, p), c06Rel(qa2, p)), "C06: client invoked iff one of its queries matches")
 	h.Assert((b.n == 1) == c06Rel(qb, p), "C06: second client invoked iff its query matches")
+	// one of the client's two queries is removed: it keeps being offered what the other one matches
+	// (two identical queries of one client are one registration: skipped)
+	same := len(qa1) == len(qa2)
+	if same {
+		for i := range qa1 {
+			same = same && qa1[i] == qa2[i] // forks
+		}
+	}
 	ra1()
+	if !same {
+		a1 := a.n
+		m.UpdateOnce(3, p, map[Client]struct{}{})
+		h.Assert((a.n == a1+1) == c06Rel(qa2, p), "C06: after one of its queries is removed a client is still offered what its remaining query matches")
+	}
 	ra2()
 	an, bn := a.n, b.n
 	m.UpdateOnce(2, p, map[Client]struct{}{})
